@@ -22,7 +22,7 @@ REQUIRED = ["contract:CVR.merge_cvrs", "merge_checked", "merge_conflict_expected
             "merged_with_pool_false", "merged_phantom_mixed", "raire_checked", "raire_file_checked",
             "later_record_overrides_contest"]
 ASSUMPTIONS = ["tally-pool conflict = two different non-None labels for one id (None is 'unknown')"]
-N_CASES = {"quick": 20000, "thorough": 500000}
+N_CASES = {"quick": 80000, "thorough": 640000}
 
 
 def plan(tier, seed):
